@@ -65,6 +65,9 @@ class Code38(Code3):
 
     """
 
+    # 3.8 and 3.9 line increments are signed.
+    lnotab_signed = True
+
     def __init__(
         self,
         co_argcount: int,
